@@ -32,6 +32,8 @@ class SpecMixin:
             self._spec_ctx = saved
 
     def spec_call(self, st, n):
+        TRACE_FUNCS = ("effect", "no_effect", "effect_count", "effect_result", "effect_arg", "effect_arg_nth", "effect_with_arg", "effect_before",
+                       "at_effect", "reached_loop", "maybe_effect", "no_effect_here", "writes_count")
         f = n.func.id
         old, binds = self._spec_ctx
         a = n.args
@@ -42,6 +44,18 @@ class SpecMixin:
         def B(e):
             return [Res(st, V(BoolV(e), "bool"))]
 
+        if getattr(self, "_abstract_trace", False) and f in TRACE_FUNCS:
+            # callee-internal trace term inside a clause assumed at a call site: unknown value, except for the effects the
+            # callee's contract declares as propagated (one boolean per effect: it happened at least once)
+            lt = getattr(self, "_local_trace", {})
+            if f in ("effect", "no_effect") and isinstance(a[0], ast.Constant) and a[0].value in lt:
+                return B(lt[a[0].value] if f == "effect" else z3.Not(lt[a[0].value]))
+            if f in ("effect", "no_effect", "effect_before", "effect_with_arg", "reached_loop", "maybe_effect", "no_effect_here"):
+                return B(z3.Const(fresh_name("tr"), z3.BoolSort()))
+            if f in ("effect_count", "writes_count"):
+                c = fresh_int("trc"); st.assume(c >= 0)
+                return [Res(st, V(IntV(c), "int"))]
+            return [Res(st, V(fresh_val("trv"), None))]
         if f in self.reg.specfuns:
             return [Res(st, self.reg.specfuns[f](self, st, [v(x) for x in a]))]
         if f == "forall_val":      # forall_val(k, P): P for every value k (instantiated at the keys that are accessed)
@@ -50,6 +64,14 @@ class SpecMixin:
             s2 = st.copy(); s2.env = dict(st.env); s2.env[kname] = V(kv, "str")
             body = self.truth(s2, self.ev1(s2, a[1]))
             return B(qforall([kv], z3.Implies(z3.And(key_trig(kv), Val.is_StrV(kv)), body), patterns=[key_trig(kv)]))
+        if f == "forall_obj":      # forall_obj(o, Cls, P): P for every object o of class Cls that existed before the call
+            oname = a[0].id; cls = a[1].id
+            r = fresh_int("qo_" + oname)
+            s2 = st.copy(); s2.env = dict(st.env); s2.env[oname] = V(RefV(r), cls)
+            body = self.truth(s2, self.ev1(s2, a[2]))
+            subs = self.reg.subclasses(cls)
+            isc = z3.Or(*[old.read("$class", r) == self.reg.classtag(c) for c in subs])
+            return B(qforall([r], z3.Implies(z3.And(0 <= r, r < old.front, isc), body)))
         if f == "isregular":
             return B(self.fk(st, vp(v(a[0]).t)) == 1)
         if f == "isabsent":
@@ -257,6 +279,8 @@ class SpecMixin:
                     return B(z3.Not(z3.Or(*[e.g() for e in st.trace if name in e.inner or e.name == name])))
                 raise Unsupported(f"effect {name} occurs inside a loop: its count is not tracked")
             es = [e for e in st.trace if e.name == name]
+            if f == "effect_count" and any("*multi*" in e.inner for e in es):
+                raise Unsupported(f"effect {name} happens inside a callee: its count is not tracked")
             if f == "effect": return B(z3.Or(*[e.g() for e in es]) if es else z3.BoolVal(False))
             if f == "no_effect": return B(z3.Not(z3.Or(*[e.g() for e in es])) if es else z3.BoolVal(True))
             return [Res(st, V(IntV(z3.Sum(*[z3.If(e.g(), 1, 0) for e in es]) if es else z3.IntVal(0)), "int"))]
